@@ -47,6 +47,24 @@ Theorem C09_euler_delivered : forall c k e, wf c = true -> guards c = true -> In
 Proof. exact euler_delivered. Qed.
 Print Assumptions C09_euler_delivered.
 
+(* the (Ns, d+1) ring buffer of _add_matrix_delay (Connectivity with delays): at rhs call c the targets receive
+   W . (src_j(c - d))_j, zero before the first call — any number of source units, any delay, any weight matrix.
+   (Composition with Euler: the population circuit is, edge for edge, the circuit with one edge per matrix entry, to which
+   C09_partial applies; the correspondence run compares Connectivity runs with that expansion.) *)
+Theorem C09_matrix_delay : forall W X Ns d c, (forall c, length (X c) = Ns) ->
+  mat_delivered W X Ns d c =
+  matvec W (map (fun j => if (d <=? c)%nat then nth j (X (c - d)%nat) 0%Qc else 0%Qc) (seq 0 Ns)).
+Proof. exact matrix_delay. Qed.
+Print Assumptions C09_matrix_delay.
+
+(* np.round, for every rational: a nearest integer, the even one on a tie *)
+Theorem C09_round_nearest : forall q : Qc,
+  let z := round_half_even q in
+  (inject_Z z - (1 # 2) <= this q)%Q /\ (this q <= inject_Z z + (1 # 2))%Q /\
+  ((this q - inject_Z (qfloor q) == 1 # 2)%Q -> Z.even z = true).
+Proof. exact round_half_even_nearest. Qed.
+Print Assumptions C09_round_nearest.
+
 Theorem C09_round_integer : forall z, round_half_even (Q2Qc (inject_Z z)) = z.
 Proof. exact round_half_even_int. Qed.
 Print Assumptions C09_round_integer.
